@@ -25,8 +25,8 @@ def build_obligations():
 
 
 def miri_run(features, scen_args, seeds, rate, mode="threads", timeout=3000):
-    """One cargo-miri invocation over a range of Miri seeds.  Returns
-    (returncode, output)."""
+    """`rate` may carry extra Miri flags after a space, e.g. "0.1 -Zmiri-disable-weak-memory-emulation"."""
+    # One cargo-miri invocation over a range of Miri seeds.  Returns (returncode, output).
     ensure_sut_link()
     flags = "-Zmiri-many-seeds=%d..%d -Zmiri-preemption-rate=%s" % (seeds[0], seeds[1], rate)
     env = cargo_env({"MIRIFLAGS": flags})
@@ -53,8 +53,10 @@ def classify(output):
         return "undefined-behavior"
     if "memory leaked" in output:
         return "leak"
-    if "panicked at" in output:
+    if "panicked at" in output or "thread panicked" in output:
         return "panic"
+    if "abnormal termination" in output or "the program aborted" in output:
+        return "abort"
     return "miri-error"
 
 
@@ -99,6 +101,14 @@ def check_scenario(native, features, scen_args, seeds, rate):
         return [{"clause": "panic", "detail": "the scenario already fails when run sequentially in a native process: %s" % err[-800:],
                  "miri_seed": None, "output": err.splitlines()[-30:]}], {"execs": 0, "orders": set(), "overlap": 0}
     rc, out = miri_run(features, scen_args, seeds, rate)
+    if rc != 0 and classify(out) == "miri-error":
+        # Not a Miri verdict about the program (build hiccup, tool trouble).  With fixed
+        # seeds the run is deterministic, so once more; the same unexplained failure twice
+        # is harness trouble, never a finding.
+        rc2, out2 = miri_run(features, scen_args, seeds, rate)
+        if rc2 != 0 and classify(out2) == "miri-error":
+            raise HarnessError("cargo miri failed without a verdict about the program:\n%s" % out2[-3000:])
+        rc, out = rc2, out2
     outs = OUT_RE.findall(out)
     stats = {"execs": len(outs), "orders": {o[1] for o in outs}, "overlap": sum(1 for o in outs if int(o[2]) > 0)}
     bad = [o for o in outs if o[0] != expected]
@@ -284,7 +294,8 @@ def c16_check(tier, replay=None):
     serial_n, serial_bad = serial_pass(native, sd, serial_total)
     if serial_bad:
         idx = serial_bad[0]
-        scen = scenario_json(native, ["--seed", str(sd), "--index", str(idx)] + (["--race"] if idx % 2 == 0 else []))
+        scen = scenario_json(native, ["--seed", str(sd), "--index", str(idx), "--class",
+                                      ["race", "general", "pool", "late"][idx % 4]])
         small = minimise_serial(native, scen, time.time() + 60)
         _, outs = serial_differs(native, small)
         rep.violation("serial:thread-identity", {"property": "C16", "engine": "native-serial", "features": "sync",
@@ -296,15 +307,23 @@ def c16_check(tier, replay=None):
                       "no overlap); minimised to %d threads / %d ops" % (idx, outs[0], outs[1], len(small["threads"]),
                                                                        sum(len(t) for t in small["threads"])))
     # (b) Miri
+    NOWM = " -Zmiri-disable-weak-memory-emulation"
     if tier == "quick":
-        plan = [("sync", True, 0, (0, 12), "0.1"), ("sync", True, 1, (0, 12), "0.5"),
-                ("sync", False, 2, (0, 8), "0.1"), ("sync,specialized", True, 3, (0, 8), "0.3")]
+        plan = [("sync", "race", 0, (0, 8), "0.1"),
+                ("sync", "late", 1, (0, 8), "0.1" + NOWM),
+                # logic races behind locks need a preemption inside a short window and then a
+                # long undisturbed run of another thread: low rate, many seeds
+                ("sync", "pool", 2, (0, 32), "0.02"),
+                ("sync", "general", 3, (0, 8), "0.1"),
+                ("sync,specialized", "race", 4, (0, 6), "0.3")]
     else:
         plan = []
-        for i in range(10):
+        classes = ["race", "late", "pool", "general"]
+        for i in range(16):
+            cls = classes[i % 4]
             for feat in ("sync", "sync,specialized"):
-                for rate in ("0.01", "0.1", "0.5"):
-                    plan.append((feat, i % 2 == 0, 100 + i, (0, 24), rate))
+                for rate in ("0.02", "0.1" + NOWM, "0.5"):
+                    plan.append((feat, cls, 100 + i, (0, 24), rate))
     execs = 0
     orders = set()
     overlap = 0
@@ -312,14 +331,14 @@ def c16_check(tier, replay=None):
     issues_all = []
     per_feature = {}
     for feat, race, idx, seeds, rate in plan:
-        args = ["--seed", str(sd), "--index", str(idx)] + (["--race"] if race else [])
+        args = ["--seed", str(sd), "--index", str(idx), "--class", race]
         iss, st = check_scenario(native, feat, args, seeds, rate)
         execs += st["execs"]
         per_feature[feat] = per_feature.get(feat, 0) + st["execs"]
         orders |= {(idx, o) for o in st["orders"]}
         overlap += st["overlap"]
         if len(samples) < 2:
-            samples.append({"scenario_index": idx, "race_class": race, "features": feat, "miri_seeds": list(seeds),
+            samples.append({"scenario_index": idx, "scenario_class": race, "features": feat, "miri_seeds": list(seeds),
                             "preemption_rate": rate, "scenario": scenario_json(native, args)})
         for i in iss:
             issues_all.append((i, feat, race, idx, seeds, rate, args))
@@ -338,7 +357,7 @@ def c16_check(tier, replay=None):
             except HarnessError:
                 small = scen
         obj = {"property": "C16", "engine": "miri", "clause": i["clause"], "features": feat, "scenario": small,
-               "scenario_original": {"seed": sd, "index": idx, "race_class": race},
+               "scenario_original": {"seed": sd, "index": idx, "scenario_class": race},
                "miri": {"seed": i.get("miri_seed"), "preemption_rate": rate,
                         "flags": "-Zmiri-seed / -Zmiri-many-seeds, -Zmiri-preemption-rate"},
                "detail": i["detail"], "observed": i["output"]}
@@ -363,7 +382,7 @@ def c16_check(tier, replay=None):
         "static_obligations_compiled": obligations,
         "runs_per_hour": int(execs / wall * 3600),
         "seeds": {"scenario_seed": sd, "miri_seeds": "ranges given per scenario in the plan",
-                  "plan": [{"features": p[0], "race_class": p[1], "scenario_index": p[2], "miri_seeds": list(p[3]), "preemption_rate": p[4]}
+                  "plan": [{"features": p[0], "scenario_class": p[1], "scenario_index": p[2], "miri_seeds": list(p[3]), "preemption_rate": p[4]}
                            for p in plan]},
         "simulated_time": "no clock in the system under test; Miri's scheduler steps only",
         "faults_fired": {"preemptions": "decided by Miri per basic block with the configured rate; not counted by Miri",
